@@ -96,12 +96,13 @@ func c06build(dangling uint, variant int) *Cfg {
 	)
 	c.Services = append(c.Services,
 		Service{Name: "svcCtor", Constructor: P("NewThing"), Args: []any{1, "%" + name(3) + "%"}},
-		Service{Name: "svcCall", Constructor: P("NewThing"), Calls: []Call{{Method: "Set", Args: []any{"%" + name(4) + "%"}}}},
-		Service{Name: "svcField", Value: P("Thing{}"), Fields: []KV{{"Fa", "%" + name(5) + "%"}}},
+		// explicit scopes on services that sort after default-scope ones (carrier, svcAfterFn)
+		Service{Name: "svcCall", Constructor: P("NewThing"), Calls: []Call{{Method: "Set", Args: []any{"%" + name(4) + "%"}}}, Scope: P("shared")},
+		Service{Name: "svcField", Value: P("Thing{}"), Fields: []KV{{"Fa", "%" + name(5) + "%"}}, Scope: P("contextual")},
 		Service{Name: "svcCtorS", Constructor: P("NewThing"), Args: []any{"@" + name(7)}},
 		Service{Name: "svcCallS", Constructor: P("NewThing"), Calls: []Call{{Method: "Set", Args: []any{true, "@" + name(8)}}}},
 		Service{Name: "svcFieldS", Value: P("Thing{}"), Fields: []KV{{"Fb", "@" + name(9)}}},
-		Service{Name: "svcWither", Constructor: P("NewThing"), Calls: []Call{{Method: "With", Args: []any{"x%%%" + name(11) + "%:%tOne%"}, Immutable: P(true)}}},
+		Service{Name: "svcWither", Scope: P("non_shared"), Constructor: P("NewThing"), Calls: []Call{{Method: "With", Args: []any{"x%%%" + name(11) + "%:%tOne%"}, Immutable: P(true)}}},
 		Service{Name: "svcAfterFn", Constructor: P("NewThing"), Args: []any{`%todo("x")%%envInt("C06_PORT", 1)%-%` + name(13) + `%`}},
 		Service{Name: "svcMulti", Constructor: P("NewThing"), Args: []any{"x"},
 			Calls:  []Call{{Method: "First", Args: []any{"a", "@" + name(14), "b"}}, {Method: "Second", Args: []any{1, 2, "%" + name(15) + "%"}}, {Method: "Third", Args: []any{"z"}}},
@@ -123,9 +124,10 @@ func init() {
 			"non-trivial = at least one reference dangling; distinct = distinct (subset, variant)",
 		Assumptions: []string{
 			"diagnostics are matched by content: rule prefix (output.ValidateParamsExist / output.ValidateServicesExist), the referrer token and the quoted missing name; multiplicity is not compared",
-			"run-time half of the statement (an accepted container never reports 'does not exist') is observed by the probe-based checks on every accepted configuration they execute",
+			"run-time half of the statement (an accepted container never reports 'does not exist'): one configuration with zero-valued parameters of every type referenced from every position is executed here against the reference model; beyond that it is observed by the probe-based checks on every accepted configuration they execute",
 		},
 		BudgetQuick: 120 * time.Second, BudgetThorough: 600 * time.Second,
+		Prepare: PrepareUniverse,
 		Run: func(w *W) {
 			n := len(c06refs)
 			// variant 3: the configuration declares no parameter at all (every %param% reference of a service or
@@ -177,6 +179,25 @@ func init() {
 					}
 				})
 			}
+			// run-time half: an accepted container never answers "does not exist" for a reference written in the
+			// configuration - parameters holding the zero value of every type, referenced from every position
+			w.Case("runtime/zero-valued-targets", func(c *C) {
+				zeros := []KV{{"zFalse", false}, {"zZero", 0}, {"zEmpty", ""}, {"zNull", nil}, {"zFloat", 0.0}, {"zTrue", true}, {"zOne", 1}}
+				cfg := &Cfg{Meta: stdMeta()}
+				var ops []ProbeOp
+				for _, z := range zeros {
+					cfg.Params = append(cfg.Params, Param{z.K, z.V}, Param{z.K + "Alias", "%" + z.K + "%"}, Param{z.K + "Multi", "<%" + z.K + "%>"})
+					sv := Service{Name: "s" + z.K, Constructor: P("pk.New"), Args: []any{"%" + z.K + "%", "x%" + z.K + "%"},
+						Calls: []Call{{Method: "Set1", Args: []any{"%" + z.K + "%"}}}, Fields: []KV{{"F1", "%" + z.K + "Alias%"}}, Tags: []Tag{{Name: "tg"}}}
+					cfg.Services = append(cfg.Services, sv)
+					cfg.Decorators = append(cfg.Decorators, Decorator{Tag: "tg", Decorator: "pk.Dec1", Args: []any{"%" + z.K + "%"}})
+					ops = append(ops, op("param", z.K), op("param", z.K+"Alias"), op("param", z.K+"Multi"), op("get", "s"+z.K))
+				}
+				c.Distinct("all", c.ID)
+				c.Distinct("nontrivial", c.ID)
+				outs, err := w.RunBehaviour([]*BCase{{ID: c.ID, Cfg: cfg, Sessions: []BSession{{Ops: ops}}}})
+				behaviourOracle(c, outs, err)
+			})
 			for _, variant := range []int{0, 1, 2, 4, 5} {
 				for set := uint(0); set < 1<<uint(n); set++ {
 					if w.Env.Quick() {
